@@ -346,7 +346,7 @@ DSL = [
     (["put", 'unset $x; $y = is_empty($y) ? "E" : $y'], "put-ternary"),
     (["put", '$k = sub($a, "e", "X") . gsub($b, "[0-9]", "#")'], "put-sub"),
     (["put", '$first = splitax($s, ";")[1]'], "put-splitax"),
-    (["put", "-q", '@sum[$a][$b] += $i; @cnt[$a][$b] += 1; end { emitp (@sum, @cnt), "a" }'], "put-emitp-lashed"),
+    (["put", "-q", 'is_not_empty($a) && is_not_empty($b) { @sum[$a][$b] += $i; @cnt[$a][$b] += 1 } end { emitp (@sum, @cnt), "a" }'], "put-emitp-lashed"),
     (["put", "-q", '@last = $*; end { emit @last }'], "put-emit-last"),
     (["put", "-q", '@recs[$id] = $*; end { emit @recs, "id" }'], "put-retain-all"),
     (["put", '$prev = @prev ?? "none"; @prev = $id'], "put-lag"),
@@ -366,9 +366,9 @@ EARLY_FAMILIES = ("head", "seqgen", "nothing", "check")
 # Verbs that draw pseudo-random numbers.  `mlr --seed n` makes their output reproducible (flag table), so with the same
 # --seed on the chain and on every piped process a chain holding ONE such verb must equal the pipe; two of them in one
 # chain draw from one shared generator in an order the docs do not fix: such chains are declined.
-# (`sample` is not in the catalogue: its reservoir step is driven by the record's original NR, i.e. it consults the original
-# record counters, which the property excludes.)
-RANDOM_FAMILIES = ("shuffle", "bootstrap", "bootstrap-ci")
+# (`sample` used to drive its reservoir step by the record's original NR - `count-similar then sample` differed from the pipe;
+# repaired in /repo by e56d2f443, found by this catalogue entry and independently elsewhere.)
+RANDOM_FAMILIES = ("shuffle", "bootstrap", "sample", "bootstrap-ci")
 
 # Quick-tier core: every (upstream that duplicates / retains / regroups / side-writes records) x (downstream whose
 # result depends on exactly which records arrive, in which order, as separate objects) pair.  These are the
@@ -565,6 +565,7 @@ def catalogue(rng):
     # random verbs, reproducible under --seed (flag table); at most one per chain (see RANDOM_FAMILIES)
     add("shuffle", ["shuffle"])
     add("bootstrap", ["bootstrap"])
+    add("sample", ["sample", "-k", str(rng.choice([1, 2])), "-g", rng.choice(["a", "b"])])
     add("bootstrap-ci", ["bootstrap-ci", "-f", rng.choice(["x", "x,i"]), "-n", "40"] + rng.choice([[], ["-g", "a"], ["-a", "mean,median"]]))
     add("tee", ["tee", "--ojsonl", "--jvquoteall", "@SIDE@.out"])
     add("split", ["split", "-v", "--ojsonl", "--jvquoteall", "--prefix", "@SIDE@"] + rng.choice([["-g", "a"], ["-n", "3"], ["-m", "2"], ["-g", "a,b", "-j", "+"],
@@ -583,6 +584,25 @@ IFLAG = {"json": ["--ijson"], "jsonl": ["--ijsonl"], "dkvp": ["--idkvp"], "csv":
 OFLAG = {"json": ["--ojson"], "jsonl": ["--ojsonl"], "dkvp": ["--odkvp"], "csv": ["--ocsv"], "tsv": ["--otsv"]}
 
 
+def _nested_unreadable(text):
+    """text = the scanner's rendering of a nested value (objects: [key, text, kind] triples; arrays: [kind, text] pairs).
+    True if it holds a bare token that is not JSON (an error value)."""
+    try:
+        data = json.loads(text)
+    except ValueError:
+        return True
+    for item in data:
+        if len(item) == 3:
+            _, v, kind = item
+        else:
+            kind, v = item
+        if kind == "b" and v not in ("true", "false", "null") and not _JSON_NUM.fullmatch(v):
+            return True
+        if kind == "m" and _nested_unreadable(v):
+            return True
+    return False
+
+
 def in_domain(fmt, recs):
     """Can `recs` (scanned from a JSON Lines observation of the stage) travel through `fmt` and be
     re-read as the same records with the same inferred types?  Limitations used here are inherent in the
@@ -592,6 +612,8 @@ def in_domain(fmt, recs):
         for k, v, kind in r:
             if kind == "b" and v not in ("true", "false", "null") and not _JSON_NUM.fullmatch(v):
                 return False     # e.g. a bare (error): Miller cannot read its own rendering of an error value back
+            if kind == "m" and _nested_unreadable(v):
+                return False     # the same inside a map / an array
     if fmt in ("json", "jsonl"):
         return True
     for r in recs:
@@ -1813,7 +1835,7 @@ def run(chk):
     chk.rule = (
         f"a: verb chains of length 2-4 drawn from a catalogue of {len(fam_names)} context-free verb/option families, each drawing among the documented "
         "option forms that select another internal path (head -n k / -n -k, tail -n k / -n +k, with and without -g, ...) (put/filter programs that do "
-        "not read NR/FNR/FILENAME, no print; shuffle/bootstrap/bootstrap-ci under one --seed, at most one per chain) x generated inputs "
+        "not read NR/FNR/FILENAME, no print; shuffle/bootstrap/sample/bootstrap-ci under one --seed, at most one per chain) x generated inputs "
         "(0..1300 records, DKVP/JSON/CSV, ragged/heterogeneous/wide, 25% with non-canonical number spellings; 4-12% of the cases have 513+ "
         "records read at --records-per-batch 511/513/1000/2000, i.e. beyond the 500-record default batch and the readers' 512-record slab) "
         "x up to 3 intermediate-format plans per chain (JSON|JSONL; DKVP; CSV|TSV), text formats only "
@@ -1949,9 +1971,8 @@ def run(chk):
         "same values unchanged) reproduces the original chain output, so that the inserted stage by itself masks nothing; any residual difference "
         "is reported. If such a float is >= 2^53 or -0 (int() of it need not print alike) the case is skipped as undecidable "
         "(observed.a_declined_integral_float_unsafe_to_retype)",
-        "a: shuffle / bootstrap / bootstrap-ci run with the same --seed on the chain and on every piped process (`--seed`: reproducible output, "
-        "flag table); a chain with two of them is declined (one generator shared by two verbs, draw order unspecified); `sample` is excluded because "
-        "its reservoir step is driven by the records' original NR (the property excludes verbs that consult the original record counters)",
+        "a: shuffle / bootstrap / sample / bootstrap-ci run with the same --seed on the chain and on every piped process (`--seed`: reproducible output, "
+        "flag table); a chain with two of them is declined (one generator shared by two verbs, draw order unspecified)",
         "a: when both the chain and the pipe fail the case is skipped; the pipe is run sequentially (each stage to completion), so tee/split files "
         "are compared only when no later verb is documented/known to stop consuming input early (head without -g, seqgen, nothing, check)",
         "b: an empty (0-byte) file, a header-only CSV/TSV/PPRINT file and a JSON `[]` file contribute no records but count in FILENUM "
